@@ -90,6 +90,32 @@ static std::vector<Spec> shapeAlphabet() {
     s.nets = {net({{0, 0, 0}, {1, 1, 1}, {2, 0, 2}, {7, 3, 3}}), net({{3, 0, 0}, {4, 0, 0}}), net({{5, 1, 1}, {6, 2, 7}, {0, 0, 0}})};
     v.push_back(s);
   }
+  {  // many free row segments sharing their y (sorting predicates over segments see ties; more than 16 elements)
+    Spec s; s.rows = {mkRow(0, 80, 0, 2, oN)};
+    for (int k = 0; k < 19; ++k) s.cells.push_back(cell(1, 2, 4 * k + 3, 0, true, true));
+    for (int k = 0; k < 8; ++k) s.cells.push_back(cell(1 + k % 2, 2, 10 * k, 0));
+    s.nets = {net({{19, 0, 0}, {26, 1, 1}}), net({{20, 0, 0}, {22, 0, 0}, {24, 1, 1}}), net({{21, 0, 1}, {25, 0, 0}})};
+    v.push_back(s);
+    Spec t;  // 20 rows cut in two by a fixed column
+    for (int r = 0; r < 20; ++r) t.rows.push_back(mkRow(0, 20, r, 2, r % 2 ? oFS : oN));
+    t.cells.push_back(cell(2, 40, 9, 0, true, true));
+    for (int k = 0; k < 10; ++k) t.cells.push_back(cell(1 + k % 3, 2, (7 * k) % 18, (6 * k) % 38));
+    t.nets = {net({{1, 0, 0}, {10, 1, 1}}), net({{2, 0, 0}, {5, 0, 0}, {8, 1, 1}}), net({{3, 0, 1}, {6, 0, 0}}), net({{4, 0, 0}, {7, 0, 0}, {9, 0, 0}})};
+    v.push_back(t);
+    Spec u = t;  // the same cut in three
+    u.cells.push_back(cell(1, 40, 15, 0, true, true));
+    v.push_back(u);
+  }
+  for (int density : {1, 2}) {  // unit cells filling the rows exactly, and twice over (infeasible density)
+    Spec s; s.rows = {mkRow(0, 8, 0, 1, oN), mkRow(0, 8, 1, 1, oFS)};
+    for (int k = 0; k < 16 * density; ++k) s.cells.push_back(cell(1, 1, (3 * k) % 8, k % 2));
+    s.nets = {net({{0, 0, 0}, {5, 0, 0}}), net({{1, 0, 0}, {9, 0, 0}, {15, 0, 0}})};
+    v.push_back(s);
+    Spec t; t.rows = {mkRow(0, 4, 0, 1, oN), mkRow(0, 4, 1, 1, oN), mkRow(0, 4, 2, 1, oN), mkRow(0, 4, 3, 1, oN)};
+    for (int k = 0; k < 16 * density; ++k) t.cells.push_back(cell(1, 1, 2, 2));
+    t.nets = {net({{0, 0, 0}, {7, 0, 0}}), net({{3, 0, 0}, {11, 0, 0}, {12, 0, 0}})};
+    v.push_back(t);
+  }
   return v;
 }
 
@@ -101,7 +127,11 @@ static void enumerateAll(const std::function<void(const Spec &)> &f) {
   for (auto &pa : detailedParamMenu()) menu.push_back(pa);
   for (auto &pa : legalizeParamMenu()) menu.push_back(pa);
   auto emit = [&](const Spec &base, bool allMags, bool allStages, bool devs) {
+    // the shapes with 16+ unit cells or 20+ rows are explored unscaled and at 2^14 only: the anisotropic magnitudes turn
+    // them into grids of a million bins, which terminate but take minutes (slow, not a violation)
+    bool big = base.cells.size() >= 16 || base.rows.size() >= 20;
     for (size_t mi = 0; mi < mags.size(); ++mi) {
+      if (big && mi != 0 && mi != 2) continue;
       if (!allMags && mi != 0 && mi != 2 && mi != 5) continue;
       Spec m = scaled(base, mags[mi].sx, mags[mi].sy, mags[mi].tx, mags[mi].ty);
       if (!inMagnitudeBox(m)) continue;
